@@ -11,6 +11,11 @@ Scenarios (real subprocess workers, real pool):
      _closed=True, so _PooledTransport.close() does not see an abandoned stream and the worker goes
      back to the idle set with the undrained tail of the response in its stdout pipe.  The next
      borrower's first call reads that tail.
+  D. an exchange is interrupted after its input was sent (timeout / exception in the application before
+     the reply is read) and the server answers that input with an error batch.  close() drains inside
+     `suppress(..., RpcError, ...)` placed around the whole loop, so the RpcError ends the drain with
+     the stream's end-of-stream marker still unread; `_closed` is True, the worker is re-pooled, and
+     the next borrower's first call fails with "Tried reading schema message, was null or length 0".
   C. a borrower opens stream #1, abandons it, opens stream #2 on the same connection and closes #2
      properly.  Only the *last* session is consulted by _PooledTransport.close(), so the worker is
      returned although the conversation is desynchronised.
@@ -91,6 +96,20 @@ def scenario_b() -> int:
         return bad
 
 
+def scenario_d() -> int:
+    with WorkerPool(max_idle=2) as pool:
+        with pool.connect(Svc, CMD) as svc0:
+            pid = svc0.get_pid()
+        with pool.connect(Svc, CMD) as svc:
+            with svc.boom() as session:
+                session._write_batch(batch(1))  # input sent; the application never gets to read the reply
+        print(f"D: after borrower 1: idle={pool.idle_count} discards={pool.metrics.discards}")
+        bad = _next_borrower(pool, pid, "D")
+        if bad:
+            print("DEFECT C32: worker reused although close() stopped draining at the server's error batch; the next borrower read the previous stream's end-of-stream marker")
+        return bad
+
+
 def scenario_c() -> int:
     with WorkerPool(max_idle=2) as pool:
         with pool.connect(Svc, CMD) as svc0:
@@ -116,7 +135,7 @@ def scenario_c() -> int:
 
 def main() -> int:
     bad = 0
-    for fn in (scenario_a, scenario_b, scenario_c):
+    for fn in (scenario_a, scenario_b, scenario_d, scenario_c):
         try:
             bad += fn()
         except Exception as e:  # noqa: BLE001
